@@ -325,9 +325,25 @@ pub fn pkenc() -> i32 {
         let seed = 17 + id.as_u64().unwrap_or(0);
         let zeros = [BlsScalar::zero(); 11];
         let ones = [BlsScalar::one(); 11];
-        let r = (|| -> Result<Value, String> {
+        // the property itself, on every prover this scenario compiles (the two auxiliary
+        // circuits included): try_from_bytes(to_bytes()) succeeds and re-encodes identically
+        let rt_fails = |pb: &[u8]| -> Option<String> {
+            match guarded(|| Prover::try_from_bytes(pb)) {
+                Ok(Ok(dec)) => {
+                    if dec.to_bytes() == pb { None } else { Some("ok-but-reencodes-differently".into()) }
+                }
+                other => Some(outcome_dbg(&other)),
+            }
+        };
+        let body = || -> Result<Value, String> {
             let b0 = compile(&pp, b"pkenc", &pkenc_program(&cls, &zeros, seed))?.prover.to_bytes();
+            if let Some(why) = rt_fails(&b0) {
+                return Ok(json!({"id": id, "stage": "aux-0", "rt": why, "len": b0.len()}));
+            }
             let b1 = compile(&pp, b"pkenc", &pkenc_program(&cls, &ones, seed))?.prover.to_bytes();
+            if let Some(why) = rt_fails(&b1) {
+                return Ok(json!({"id": id, "stage": "aux-1", "rt": why, "len": b1.len()}));
+            }
             let mut x = [BlsScalar::zero(); 11];
             let mut st = seed ^ 0x51;
             for j in 0..11 {
@@ -345,18 +361,27 @@ pub fn pkenc() -> i32 {
             let program = pkenc_program(&cls, &x, seed);
             let obj = compile(&pp, b"pkenc", &program)?;
             let pb = obj.prover.to_bytes();
-            let (n, lens, complete, pk_len) = pk_shape(&pb)?;
             let d = guarded(|| Prover::try_from_bytes(&pb));
+            let (n, lens, complete, pk_len) = match guarded(|| pk_shape(&pb)) {
+                Ok(Ok(t)) => t,
+                other => {
+                    let why = match other { Ok(Err(e)) => e, Err(p) => p, _ => unreachable!() };
+                    return Ok(json!({"id": id, "layout_unreadable": why, "rt": outcome_dbg(&d), "len": pb.len()}));
+                }
+            };
             let mut out = json!({"id": id, "n": n, "lens": lens, "pk_complete": complete, "pk_len": pk_len,
                                  "rt": outcome_dbg(&d), "len": pb.len()});
             if let Ok(Ok(dec)) = &d {
                 out["reenc"] = json!(dec.to_bytes() == pb);
             }
             Ok(out)
-        })();
-        match r {
-            Ok(v) => println!("{}", v),
-            Err(e) => println!("{}", json!({"id": id, "error": e})),
+        };
+        // a panic here is the harness failing to read the encoding the way Codec.tla lays
+        // it out (index out of range on a length prefix): reported, not fatal
+        match guarded(body) {
+            Ok(Ok(v)) => println!("{}", v),
+            Ok(Err(e)) => println!("{}", json!({"id": id, "error": e})),
+            Err(p) => println!("{}", json!({"id": id, "layout_unreadable": p})),
         }
     }
     0
